@@ -82,6 +82,7 @@ type c17Wit struct {
 }
 
 func runC17(c *ev.Ctx) {
+	defer sizeSweep(c, "C17")
 	maxSort, maxRev, maxPanic := 5, 4, 3
 	if c.Thorough() {
 		maxSort, maxRev, maxPanic = 6, 5, 4
